@@ -20,7 +20,7 @@ def main():
         shutil.rmtree(work, ignore_errors=True)
         shutil.copytree(SRC_REPO, work, ignore=shutil.ignore_patterns("target", ".git"))
         if sid != "unchanged":
-            r = subprocess.run(["patch", "-p1", "-s", "-i", os.path.join(SEEDED, sid, "patch.diff")], cwd=work, capture_output=True, text=True)
+            r = subprocess.run(["patch", "-p1", "-s", "-F3", "--no-backup-if-mismatch", "-i", os.path.join(SEEDED, sid, "patch.diff")], cwd=work, capture_output=True, text=True)
             if r.returncode != 0:
                 print(sid, "patch failed", r.stdout[-300:], r.stderr[-300:], flush=True)
                 continue
